@@ -89,6 +89,8 @@ def exec_cases():
           'one', 'one + two', 'nope', 'nope == nope', 'nope()', 'min(one, two())',
           'x = 1', 'x = 1; x', 'x = 1; y = x + 1; y', 'x = 1; x += 2; x', 'x = 6; x -= 1; x *= 3; x %= 4; x', 'x = 8; x /= 2; x', 'x = 6; x &= 3; x |= 8; x ^= 1; x', 'x = y = 3', 'x = 1; x = true; x', 'x += 1', 'x = 1; x += true', 'x = 1; x += true; x',
           '1 = 2', '(x) = 2; x', 'f() = 1', "x = 1; boom(); y = 2", 'x = 1; y = boom(); x', 'x = one(); y = two(); [y, x]', 'x = 1; x += ((x = 10) == 0 ? 1 : 2); x', 'x = 1; x = x + (x = 5) ; x', 'x = 2; [x, x = 3, x]', 'a = 1; [1/0, a = 2, two()]', 'a = 1; a',
+          'nope ? one() : two()', 'nope && true', 'true && nope', 'AND [true, nope]', 'OR [false, nope]', '!nope', '-nope', '+nope', 'nope + 1', 'nope < 1', 'sum(1, 2, nope)', 'min(nope)', 'nope ++', "nope beginWith 'a'", 'nope | 1', 'x = nope; x', 'x = nope; x ? 1 : 2',
+          'a = 5.5; a %= 2; a', 'a = 7; a %= 0.2; a', 'a = 1.5; a += 1.5; a |= 4; a', 'a = 2.5; a *= 2; a << 1', 'a = 7.5; a -= 0.5; a & 3', 'a = 9; a /= 2; a', 'a = 1000000000000000000000000007; a %= 10; a', 'x = y = 3; [x, y]', 'y = 1; x = y &= 3; [x, y]', 'y = 6; z = x = y |= 1; [z, x, y]', 'y = 1; x = y <<= 2; [x, y]', 'x = y += 3; [x, y]',
           '', '1; 2', '1; 2;', 'x = 1;', "'a' == 'a'", "'a' != 'b'", '[1, 2] == [1, 2]', '[1, 2] == [1, 2.0]', '{1: 2} == {1: 2}', 'nope == 1', 'true == 1', '1 == true']
     return c
 
